@@ -30,7 +30,8 @@ func init() {
 func Spec() *run.Spec {
 	return &run.Spec{
 		ID: "C02", Level: "exploration",
-		Rule: "generators: one case = one parameterisation of one generator family (small parameter grids enumerated, the rest sampled); " +
+		Rule: "Since rounds 8-9: extrude.Polygon with UVs on arbitrary subsets of the path points (random subset, prefix, all but one) and the value class `dyadic` (multiples of 1/16: exact half rounding steps of both signs). " +
+			"generators: one case = one parameterisation of one generator family (small parameter grids enumerated, the rest sampled); " +
 			"non-trivial = the generator accepted the parameters and returned ≥1 primitive; distinct by family+parameter bucket. " +
 			"chains: one case = a gen.Mesh input (every topology, empty included) and 1–6 operations from the shared table, checked after each step; " +
 			"non-trivial = input has non-identity indices or unreferenced vertices or ≥2 attribute arities AND ≥2 operations returned a mesh; " +
